@@ -613,7 +613,7 @@ var errLost = errors.New("lost")
 
 var c06Delay atomic.Bool
 
-// (A'') Close while the application has read only part of a message. The rest of
+// (A”) Close while the application has read only part of a message. The rest of
 // the message must be skipped and the peer's echo found; Close returns nil.
 func c06LocalHalfRead(r *fw.R, d c06Desc, iter int) {
 	p := wire.Params{}
